@@ -301,8 +301,12 @@ class Check:
             "wall_s": wall,
             "violations": len(self.violations),
         }
-        os.makedirs(os.path.join(VERIF, "evidence"), exist_ok=True)
-        with open(os.path.join(VERIF, "evidence", p.id + ".json"), "w") as f:
+        # a run pointed at a scratch tree (VERIF_REPO, used by tools/mut.sh and tools/seedcheck.sh) must not
+        # replace the evidence of /repo itself
+        evdir = os.path.join(VERIF, "evidence") if os.path.realpath(build.REPO) == "/repo" \
+            else os.path.join(VERIF, ".build", "evidence-scratch")
+        os.makedirs(evdir, exist_ok=True)
+        with open(os.path.join(evdir, p.id + ".json"), "w") as f:
             json.dump(ev, f, indent=1)
         print("%s %s tier=%s seed=%d: theorems %d/%d, scripts %d (non-trivial %d), outcomes %s, %.1fs" % (
             p.id, "FAIL" if lines else "ok", self.tier, self.seed, proof["discharged"], proof["obligations"],
